@@ -3,6 +3,8 @@ package props
 import (
 	"fmt"
 	"math/rand/v2"
+	"sync"
+	"sync/atomic"
 
 	"golang.org/x/mod/sumdb/tlog"
 
@@ -233,6 +235,57 @@ func runC03(c *mon.Ctx) {
 			doTuple(t, ns, "tree")
 		}
 		idx++
+	}
+
+	// The functions are pure: several goroutines proving and checking at once must get exactly the
+	// sequential results (a hidden shared buffer would make honest proofs fail under load).
+	if c.Batch%4 == 3 {
+		type job struct{ t, n int }
+		var jobs []job
+		for k := 0; k < 400; k++ {
+			t := 2 + r.IntN(T-1)
+			jobs = append(jobs, job{t, r.IntN(t)})
+		}
+		seq := make([][]tlog.Hash, len(jobs))
+		for i, j := range jobs {
+			seq[i], _ = tlog.ProveRecord(int64(j.t), int64(j.n), &storeReader{store: st, limit: -1})
+		}
+		var wg sync.WaitGroup
+		var bad atomic.Int64
+		var firstBad atomic.Value
+		for g := 0; g < 8; g++ {
+			wg.Add(1)
+			go func(g int) {
+				defer wg.Done()
+				rd := &storeReader{store: st, limit: -1}
+				for rep := 0; rep < 6; rep++ {
+					for i, j := range jobs {
+						p, err := tlog.ProveRecord(int64(j.t), int64(j.n), rd)
+						ok := err == nil && len(p) == len(seq[i])
+						for x := range p {
+							ok = ok && p[x] == seq[i][x]
+						}
+						if ok {
+							ok = tlog.CheckRecord(p, int64(j.t), tlog.Hash(roots[j.t]), int64(j.n), tlog.Hash(refmerkle.Leaf(recs[j.n]))) == nil
+						}
+						if ok {
+							th, err := tlog.TreeHash(int64(j.t), rd)
+							ok = err == nil && rH(th) == roots[j.t]
+						}
+						if !ok {
+							bad.Add(1)
+							firstBad.CompareAndSwap(nil, fmt.Sprintf("t=%d n=%d goroutine=%d", j.t, j.n, g))
+						}
+					}
+				}
+			}(g)
+		}
+		wg.Wait()
+		c.Eval(8 * 6 * len(jobs))
+		c.Class("concurrent-proofs:8-goroutines")
+		if bad.Load() > 0 {
+			c.Violation("concurrent-proof-differs-from-sequential", "concurrent-proofs", map[string]any{"mismatches": bad.Load(), "first": firstBad.Load()})
+		}
 	}
 
 	// Provers must refuse out-of-range arguments with an error, not a crash.
